@@ -121,6 +121,9 @@ type MultisetCombinationIterator struct {
 
 	//A buffer slice to return the value in as we iterate using FreqValue
 	value []int
+
+	//done is set when Next returns false so that it keeps returning false.
+	done bool
 }
 
 //MultisetCombinations returns an iterator which iterates over all multisets containing k elements and with a maximum of m[i] elements of type i. Value returns the multiset of k items and FreqValue returns a slice v where v[i] is the number of i in the multiset.
@@ -152,6 +155,10 @@ func (iter MultisetCombinationIterator) FreqValue() []int {
 //Next attempts to advance the iterator to the next multiset, returning true if there is one and false if not.
 //This is an implementation of Algorithm Q from The Art of Computer Programming Volume 4a section 7.2.1.3.
 func (iter *MultisetCombinationIterator) Next() bool {
+	if iter.done {
+		return false
+	}
+
 	if iter.state == nil {
 		//Initial call
 		iter.value = make([]int, iter.k)
@@ -170,6 +177,7 @@ func (iter *MultisetCombinationIterator) Next() bool {
 			break
 		}
 		if x > 0 {
+			iter.done = true
 			return false
 		}
 
@@ -193,6 +201,7 @@ func (iter *MultisetCombinationIterator) Next() bool {
 	//Q5
 Q5:
 	if j >= len(iter.m) {
+		iter.done = true
 		return false
 	}
 
@@ -230,6 +239,7 @@ Q7:
 	for iter.state[j] == iter.m[j] {
 		j++
 		if j >= len(iter.m) {
+			iter.done = true
 			return false
 		}
 	}
